@@ -17,6 +17,7 @@ HARNESSES = [
     dict(name="touch", src="props/touch.cpp", variant="plain"),
     dict(name="touch_asan", src="props/touch.cpp", variant="asan"),
     dict(name="oob", src="props/oob.cpp", variant="plain"),
+    dict(name="sampling", src="props/sampling.cpp", variant="plain"),
     dict(name="oob_asan", src="props/oob.cpp", variant="asan"),
     dict(name="fz_oob", src="props/oob.cpp", variant="asan", kind="fuzz", cflags=["-DVF_FUZZ", '-DVF_FUZZ_PROP="oob"']),
     dict(name="traps_asan", src="props/traps.cpp", variant="asan"),
@@ -266,4 +267,28 @@ CHECKS["C04"] = dict(
     assumptions=["images are described truthfully (stride >= row bytes, storage valid for height rows, YV12 planes laid out as the library documents)",
                  "request geometry whose sums (x + width, dest - src) overflow int32 is outside the stated domain and skipped",
                  "ASan/guard pages only see accesses that leave the allocation: an over-read that stays inside row padding of the same buffer is visible only when the buffer has no padding (70% of cases)"],
+)
+
+CHECKS["C08"] = dict(
+    level="exploration",
+    rule=("rapidcheck scenes: source 1-9 x 1-9 of a8r8g8b8/x8r8g8b8/r5g6b5/a8 (70%) or another narrow format incl. indexed and "
+          "sub-byte, OP_SRC into a8r8g8b8 (1-12 x 1-4, optionally split by a clip so that scanlines start at different x), "
+          "transform from {integer/fractional translate, scale incl. negative, rot90 family, general affine, projective}, with "
+          "fractional parts biased to {0, 1/2, 1 unit, 1-1 unit, 1/4, 3/4} and first samples steered onto pixel boundaries +-2 "
+          "units; filters NEAREST/FAST, BILINEAR/GOOD/BEST, CONVOLUTION (1-5 x 1-5, negative taps), SEPARABLE_CONVOLUTION (1-5 "
+          "taps, 0-4 phase bits per axis); all four repeats. Oracle: independent implementation of rounding.txt (exact matrix "
+          "product rounded half-up, projective quotient rounded toward zero or -inf, floor(x-e), 7-bit bilinear weights with "
+          "truncating sum, k = floor(x-(w-1)/2-e) kernel alignment, phase rounding, repeat by definition), bit-exact. Run under the "
+          "default chain, without SIMD, and general-only. Non-trivial = not an integer translate, >= 2 distinct source values "
+          "sampled, and (repeat with samples outside, or a sample within 2 units of a pixel boundary/centre, or projective)."),
+    jobs=[
+        dict(harness="sampling", prop="sampling", cases=T(40000, 700000), procs=T(6, 10)),
+        dict(harness="sampling", prop="sampling", cases=T(20000, 300000), procs=T(1, 2), env={"PIXMAN_DISABLE": "sse2 ssse3 mmx"}, tag="sampling_nosimd"),
+        dict(harness="sampling", prop="sampling", cases=T(20000, 300000), procs=T(1, 2), env={"PIXMAN_DISABLE": "fast sse2 ssse3 mmx"}, tag="sampling_general"),
+        dict(harness="sampling", prop="sampling", cases=T(10000, 150000), procs=T(1, 2), env={"PIXMAN_DISABLE": "wholeops"}, tag="sampling_wholeops"),
+    ],
+    floor=T(200000, 4000000), nt_floor=T(50000, 800000),
+    assumptions=["domain: the request rectangle expanded by one pixel maps, corner by corner, to within +-30000 source pixels with w of one sign (the library drops requests beyond that, which is C04's 'dropped or clamped')",
+                 "kernels have absolute coefficient sums well below 128.0 (32-bit accumulators of 8-bit pixel x 16.16 coefficient)",
+                 "wide (10 bpc, sRGB, float) sources are not covered here (C09/C10 cover them differentially)"],
 )
